@@ -14,6 +14,7 @@ import Bmc.Proofs.GenHs.Wrappers
 import Bmc.Proofs.GenHs.NewV2Session
 import Bmc.Proofs.GenHs.Examples
 import Bmc.Proofs.GenLoops.BuildAndSendPayload
+import Bmc.Proofs.EndToEnd.HandshakeC02
 #print axioms Bmc.Proofs.C02.icvOf_spec
 #print axioms Bmc.Proofs.C02.session_sound
 #print axioms Bmc.Proofs.C02.wrong_code_is_password_error
@@ -58,3 +59,6 @@ import Bmc.Proofs.GenLoops.BuildAndSendPayload
 #print axioms Bmc.Proofs.GenHs.toy_gen_eq
 #print axioms Bmc.Proofs.GenLoops.V2Sessionless_buildAndSendPayload_gen_eq
 #print axioms Bmc.Proofs.GenLoops.V2Sessionless_buildAndSendPayload_serialize_error
+#print axioms Bmc.Proofs.EndToEnd.hsRun_sound
+#print axioms Bmc.Proofs.EndToEnd.viewAnswers_honest
+#print axioms Bmc.Proofs.EndToEnd.generated_newV2Session_sound
